@@ -95,8 +95,8 @@ End AttrLit.
 (** * 2. The literals of all actions come from the right document       *)
 (* ------------------------------------------------------------------ *)
 Lemma lab_fmt_ok_inv l : lab_fmt_okb l = true ->
-  match ltag l with TElem t => raw_okb t = true | TComment => True end /\
-  (forall k v, In (k, v) (lattrs l) -> raw_okb k = true /\ forallb xml_charb v = true) /\
+  match ltag l with TElem t => name_okb t = true | TComment => True end /\
+  (forall k v, In (k, v) (lattrs l) -> name_okb k = true /\ forallb xml_charb v = true) /\
   otext_xmlb (ltext l) = true /\ otext_xmlb (ltail l) = true.
 Proof.
   unfold lab_fmt_okb. intros H. apply andb_true_iff in H as [H H4]. apply andb_true_iff in H as [H H3].
@@ -244,7 +244,7 @@ Proof.
   unfold doc_fmt_okb, labs_ok. rewrite forallb_forall. intros H n Hn. apply H, in_seq. lia.
 Qed.
 
-Definition pair_okb (kv : str * str) : bool := raw_okb (fst kv) && forallb xml_charb (snd kv).
+Definition pair_okb (kv : str * str) : bool := name_okb (fst kv) && forallb xml_charb (snd kv).
 
 Lemma forallb_aput (l : list (str * str)) k v :
   forallb pair_okb l = true -> pair_okb (k, v) = true -> forallb pair_okb (aput l k v) = true.
@@ -261,7 +261,7 @@ Proof.
 Qed.
 
 Lemma lab_fmt_okb_eq l :
-  lab_fmt_okb l = match ltag l with TElem t => raw_okb t | TComment => true end
+  lab_fmt_okb l = match ltag l with TElem t => name_okb t | TComment => true end
                   && forallb pair_okb (lattrs l) && otext_xmlb (ltext l) && otext_xmlb (ltail l).
 Proof. reflexivity. Qed.
 
@@ -283,14 +283,14 @@ Proof.
   destruct (Nat.eqb m (fnext f)) eqn:E; [exact Hl|]. apply Nat.eqb_neq in E. apply Hf. lia.
 Qed.
 
-Lemma ahas_pair_ok l k : forallb pair_okb l = true -> ahas l k = true -> raw_okb k = true.
+Lemma ahas_pair_ok l k : forallb pair_okb l = true -> ahas l k = true -> name_okb k = true.
 Proof.
   intros Hl Hk. apply ahas_In in Hk. apply in_map_iff in Hk as ([k0 v0] & <- & Hin).
   rewrite forallb_forall in Hl. specialize (Hl _ Hin). unfold pair_okb in Hl. cbn [fst snd] in *.
   apply andb_true_iff in Hl. tauto.
 Qed.
 
-Definition tag_okb (t : tagt) : bool := match t with TElem t => raw_okb t | TComment => true end.
+Definition tag_okb (t : tagt) : bool := match t with TElem t => name_okb t | TComment => true end.
 
 Lemma lab_parts l :
   lab_fmt_okb l = true <->
@@ -443,16 +443,72 @@ Proof.
     apply Hok. exact Hn'.
 Qed.
 
+Lemma split_brace_first s : forall acc u l,
+  split_brace s acc = Some (u, l) -> exists s1, s = s1 ++ 125%N :: l /\ u = rev acc ++ s1 /\ ~ In 125%N s1.
+Proof.
+  induction s as [|c r IH]; intros acc u l H; cbn [split_brace] in H; [discriminate|].
+  destruct (c =? 125)%N eqn:E.
+  - inversion H; subst. apply N.eqb_eq in E. subst. exists []. rewrite app_nil_r. repeat split; auto.
+  - apply IH in H as (s1 & -> & -> & Hn). exists (c :: s1). cbn [rev]. rewrite <- app_assoc.
+    repeat split; try reflexivity. intros [Hc|Hc]; [subst c; discriminate|exact (Hn Hc)].
+Qed.
+
+Lemma local_charb_spec c : local_charb c = true -> (33 <= c <= 126 /\ c <> 44 /\ c <> 34)%N.
+Proof.
+  unfold local_charb. intros H. repeat (apply andb_true_iff in H as [H ?]).
+  repeat match goal with X : negb _ = true |- _ => apply negb_true_iff, N.eqb_neq in X end.
+  apply N.leb_le in H. match goal with X : (_ <=? 126)%N = true |- _ => apply N.leb_le in X end. lia.
+Qed.
+
+Lemma local_raw_charb c : local_charb c = true -> raw_charb c = true.
+Proof.
+  intros H. apply local_charb_spec in H as (H1 & H2 & H3). unfold raw_charb.
+  rewrite (is_linebreak_printable c) by lia.
+  replace (c =? 44)%N with false by (symmetry; apply N.eqb_neq; exact H2).
+  replace (c =? 34)%N with false by (symmetry; apply N.eqb_neq; exact H3). reflexivity.
+Qed.
+
+(* a name the text format can carry is one field for DiffParser._split ... *)
+Lemma name_rawq s : name_okb s = true -> rawq_okb s = true.
+Proof.
+  unfold name_okb. intros H. apply orb_true_iff in H as [H|H].
+  - apply rawq_okb_spec, raw_rawq, raw_okb_spec, H.
+  - apply rawq_okb_spec. unfold clark_nameb, unclark in H.
+    destruct s as [|c r]; [discriminate|]. destruct (c =? 123)%N eqn:Ec; [|discriminate].
+    destruct (split_brace r []) as [[u l]|] eqn:Es; [|discriminate].
+    apply N.eqb_eq in Ec. subst c.
+    apply split_brace_first in Es as (s1 & -> & -> & Hn). cbn [rev app] in *.
+    apply andb_true_iff in H as [H Hl]. apply andb_true_iff in H as [Hu Hne].
+    apply clark_rawq.
+    + exact Hn.
+    + apply Forall_forall. intros c Hc. rewrite forallb_forall in Hu. apply negb_true_iff, Hu, Hc.
+    + apply Forall_forall. intros c Hc. rewrite forallb_forall in Hl. apply local_charb_spec, Hl, Hc.
+    + destruct l; [discriminate|discriminate].
+Qed.
+
+(* ... and its local part is made of raw characters (what getpath prints) *)
+Lemma name_local_raw name : name_okb name = true ->
+  match unclark name with (Some _, l) => forallb raw_charb l = true | (None, _) => forallb raw_charb name = true end.
+Proof.
+  unfold name_okb. intros H. apply orb_true_iff in H as [H|H].
+  - unfold raw_okb in H. apply andb_true_iff in H as [H _]. apply andb_true_iff in H as [H _].
+    destruct (unclark name) as [[u|] l] eqn:E; [|exact H].
+    apply unclark_Some in E. subst name. unfold clark in H. cbn [forallb] in H.
+    apply andb_true_iff in H as [_ H]. rewrite forallb_app in H. apply andb_true_iff in H as [_ H].
+    cbn [forallb] in H. apply andb_true_iff in H as [_ H]. exact H.
+  - unfold clark_nameb in H. destruct (unclark name) as [[u|] l]; [|discriminate].
+    apply andb_true_iff in H as [_ H]. apply forallb_forall. intros c Hc.
+    rewrite forallb_forall in H. apply local_raw_charb, H, Hc.
+Qed.
+
 Lemma test_of_raw pe t : pe_raw_ok pe ->
-  match t with TElem name => forallb raw_charb name = true | TComment => True end ->
+  match t with TElem name => name_okb name = true | TComment => True end ->
   test_rawb (test_of pe t) = true.
 Proof.
   intros Hpe Ht. destruct t as [name|]; [|reflexivity]. unfold test_of.
+  apply name_local_raw in Ht.
   destruct (unclark name) as [[u|] l] eqn:E.
-  - apply unclark_Some in E. subst name. unfold clark in Ht. cbn [forallb] in Ht.
-    apply andb_true_iff in Ht as [_ Ht]. rewrite forallb_app in Ht. apply andb_true_iff in Ht as [_ Ht].
-    cbn [forallb] in Ht. apply andb_true_iff in Ht as [_ Ht].
-    destruct (pe u) as [p|] eqn:Ep; [|reflexivity]. cbn [test_rawb]. rewrite (Hpe u p Ep), Ht. reflexivity.
+  - destruct (pe u) as [p|] eqn:Ep; [|reflexivity]. cbn [test_rawb]. rewrite (Hpe u p Ep), Ht. reflexivity.
   - apply unclark_None in E. subst l. exact Ht.
 Qed.
 
@@ -468,7 +524,7 @@ Proof.
     { apply (doc_nodes_iff f root m Hwf) in Hm. eapply desc_lt; [exact Hwf|apply (wf_root_lt _ _ Hwf)|exact Hm]. }
     destruct (proj1 (lab_parts _) (Hlabs m Hlt)) as (A & _).
     destruct (ltag (flab f m)) as [name|]; [|exact I].
-    cbn [tag_okb] in A. unfold raw_okb in A. apply andb_true_iff in A as [A _]. apply andb_true_iff in A. tauto. }
+    cbn [tag_okb] in A. exact A. }
   apply path_raw_okb; assumption.
 Qed.
 
@@ -479,37 +535,41 @@ Lemma po_xml t : otext_xmlb t = true ->
   match po t with PStr s => forallb xml_charb s | PNone => true | PInt _ => false end = true.
 Proof. destruct t; cbn; auto. Qed.
 
+Lemma raw_q s : raw_okb s = true -> rawq_okb s = true.
+Proof. intros H. apply rawq_okb_spec, raw_rawq, raw_okb_spec, H. Qed.
+
 Theorem render_wf pe root f a f' :
   wf_forest f root -> labs_ok f -> pe_raw_ok pe -> lit_okb a = true ->
-  spec_apply root f a = Some f' -> wf_actionb tables (render pe root f a) = true.
+  spec_apply root f a = Some f' -> wf_actionqb tables (render pe root f a) = true.
 Proof.
   intros Hwf Hlabs Hpe Hl Hs.
-  assert (GP : forall n, alive f root n = true -> raw_okb (path_to_str (getpath pe f root n)) = true)
-    by (intros n Hn; apply getpath_raw_ok; assumption).
-  assert (AK : forall n k, alive f root n = true -> ahas (lattrs (labof f n)) k = true -> raw_okb k = true).
+  assert (GP : forall n, alive f root n = true -> rawq_okb (path_to_str (getpath pe f root n)) = true)
+    by (intros n Hn; apply raw_q, getpath_raw_ok; assumption).
+  assert (AK : forall n k, alive f root n = true -> ahas (lattrs (labof f n)) k = true -> rawq_okb k = true).
   { intros n k Hn Hk. pose proof (alive_lt' root f n Hwf Hn) as Hlt.
-    destruct (proj1 (lab_parts _) (Hlabs n Hlt)) as (_ & B & _). eapply ahas_pair_ok; eauto. }
+    destruct (proj1 (lab_parts _) (Hlabs n Hlt)) as (_ & B & _). apply name_rawq. eapply ahas_pair_ok; eauto. }
   destruct a as [t tag pos n|t pos txt n|n t pos|n|n tag|n txt|n txt|n k v|n k v|n k|n k k'|p u|p];
     cbn [lit_okb] in Hl.
-  - apply spec_insert_inv in Hs as (A & _). cbn. rewrite (GP t A), Hl. reflexivity.
+  - apply spec_insert_inv in Hs as (A & _). apply name_rawq in Hl. cbn. rewrite (GP t A), Hl. reflexivity.
   - apply spec_insert_comment_inv in Hs as (A & _). cbn. rewrite (GP t A), (po_xml txt Hl). reflexivity.
   - apply spec_move_inv in Hs as (A & _ & B & _). cbn. rewrite (GP n A), (GP t B). reflexivity.
   - apply spec_delete_inv in Hs as (A & _). cbn. rewrite (GP n A). reflexivity.
   - cbn [spec_apply] in Hs. destruct (alive f root n) eqn:A; [|discriminate].
-    cbn. rewrite (GP n A), Hl. reflexivity.
+    apply name_rawq in Hl. cbn. rewrite (GP n A), Hl. reflexivity.
   - cbn [spec_apply] in Hs. destruct (alive f root n) eqn:A; [|discriminate].
     cbn. rewrite (GP n A), (po_xml txt Hl). reflexivity.
   - cbn [spec_apply] in Hs. destruct (alive f root n) eqn:A; [|discriminate].
     cbn. rewrite (GP n A), (po_xml txt Hl). reflexivity.
-  - apply spec_upd_attr_inv in Hs as (A & _). apply andb_true_iff in Hl as [H1 H2].
+  - apply spec_upd_attr_inv in Hs as (A & _). apply andb_true_iff in Hl as [H1 H2]. apply name_rawq in H1.
     cbn. rewrite (GP n A), H1, H2. reflexivity.
-  - apply spec_ins_attr_inv in Hs as (A & _). apply andb_true_iff in Hl as [H1 H2].
+  - apply spec_ins_attr_inv in Hs as (A & _). apply andb_true_iff in Hl as [H1 H2]. apply name_rawq in H1.
     cbn. rewrite (GP n A), H1, H2. reflexivity.
   - apply spec_del_attr_inv in Hs as (A & _ & B). cbn. rewrite (GP n A), (AK n k A B). reflexivity.
-  - apply spec_ren_attr_inv in Hs as (A & _ & B & _). cbn. rewrite (GP n A), (AK n k A B), Hl. reflexivity.
+  - apply spec_ren_attr_inv in Hs as (A & _ & B & _). apply name_rawq in Hl.
+    cbn. rewrite (GP n A), (AK n k A B), Hl. reflexivity.
   - destruct p as [p|]; [|discriminate]. cbn [ns_act_fmt_okb] in Hl. apply andb_true_iff in Hl as [H1 H2].
-    cbn. rewrite H1, H2. reflexivity.
-  - destruct p as [p|]; [|discriminate]. cbn [ns_act_fmt_okb] in Hl. cbn. rewrite Hl. reflexivity.
+    apply raw_q in H1, H2. cbn. rewrite H1, H2. reflexivity.
+  - destruct p as [p|]; [|discriminate]. cbn [ns_act_fmt_okb] in Hl. apply raw_q in Hl. cbn. rewrite Hl. reflexivity.
 Qed.
 
 Theorem rendered_script_wf pe root script : forall f T gs,
@@ -524,7 +584,7 @@ Proof.
     destruct (render_script pe root f1 r) as [gs'|] eqn:Hr; [|discriminate].
     injection Hren as <-. inversion Hlit as [|? ? Ha Hr']; subst.
     constructor.
-    + apply wf_actionb_spec. eapply render_wf; eauto.
+    + apply wf_actionqb_spec. eapply render_wf; eauto.
     + apply (IH f1 T gs'); auto.
       * eapply spec_apply_wf; eauto.
       * eapply spec_apply_labs_ok; eauto.
